@@ -623,4 +623,79 @@ example : ∃ s, index cfiDump = .state s ∧ ∃ (h2 : 0 < s.stacks.length) (hj
   exact this
 end CfiFrame
 
+/-! ### the same with a STACK WIN record present: the `mkEnvW` branch is inhabited -/
+section CfiFrameW
+open MdModel.CfiBridge
+
+/-- `cfiDump` with a STACK WIN record in `mod`'s symbol file: `noWins` fails, the walks run in `mkEnvW` -/
+def cfiDumpW : Dump :=
+  { cfiDump with syms := [("mod", cfiSf, [⟨'4', 0x500, 0x10, 8, 0, 0, '1', "$T0 .raSearch =".toList⟩])] }
+
+theorem cfiW_hyps :
+    cfiDumpW.threads = some [cfiThread] ∧ Walk.noWins (winsOf cfiDumpW) = false ∧ DumpRegsOk cfiDumpW ∧
+    startCtx cfiDumpW cfiThread = some cfiRegs ∧
+    selectMem (memoryList cfiDumpW) cfiThread (some 0x10008) = some regionA ∧
+    worldOf cfiDumpW = worldOf cfiDump := by
+  refine ⟨rfl, by decide, ⟨?_, ?_⟩, by decide, by rfl, rfl⟩
+  · intro e c he; cases he
+  · intro ts hts t ht c hc
+    cases hts
+    simp only [List.mem_singleton] at ht
+    subst ht
+    cases hc
+    exact ⟨by decide, by decide, by decide, by decide⟩
+
+/-- **non-vacuity of `state_cfi_frames_follow_c06W`**: on `cfiDumpW` (amd64, a STACK WIN record
+    present) call stack 0 has a frame 1 of trust `cfi` and the theorem applies to it -/
+example : ∃ s, index cfiDumpW = .state s ∧ ∃ (h2 : 0 < s.stacks.length) (hj : 0 + 1 < s.stacks[0].frames.length),
+    s.stacks[0].frames[0 + 1].f.trust = .cfi ∧ s.stacks[0].frames[0 + 1].f.ctx.sp = 0x10018 ∧
+    s.stacks[0].frames[0 + 1].f.ctx.ip = 0x10030 ∧
+    FollowsC06 .amd64 .other (worldOf cfiDump) cfiMem0 s.stacks[0].frames[0].f s.stacks[0].frames[0 + 1].f := by
+  obtain ⟨hth, hn, hregs, hstart, hsel, hworld⟩ := cfiW_hyps
+  obtain ⟨s, hs⟩ := index_total cfiDumpW [cfiThread] hth
+  have hl := (stack_at cfiDumpW [cfiThread] s hth hs).1
+  have h2 : 0 < s.stacks.length := by rw [hl]; decide
+  have h1 : 0 < [cfiThread].length := by decide
+  refine ⟨s, hs, h2, ?_⟩
+  have hw := stacks_are_walks cfiDumpW [cfiThread] s hth hs 0 h1 h2
+  have hstart' : startCtx cfiDumpW [cfiThread][0] = some cfiRegs := hstart
+  rw [hstart'] at hw
+  simp only at hw
+  have hsel' : selectMem (memoryList cfiDumpW) [cfiThread][0] (some cfiRegs.sp) = some regionA := hsel
+  rw [(env_spec cfiDumpW _).2.2.2.1 hn, hsel'] at hw
+  have ea : (unwinderOf cfiDumpW.arch).getD .x86 = .amd64 := by decide
+  have eo : walkOs (Os.ofPlatformId cfiDumpW.platformId) = .other := by decide
+  have em : walkMem cfiDumpW (some regionA) = some cfiMem0 := by rfl
+  have ec : toCtx cfiDumpW.arch cfiRegs = toCtx 9 cfiRegs := rfl
+  rw [ea, eo, ec, em, hworld] at hw
+  have hm0 : (some cfiMem0).getD { base := 0, bytes := #[] } = cfiMem0 := rfl
+  rw [hm0] at hw
+  have hne : Walk.Arch.amd64 ≠ .x86 := by decide
+  obtain ⟨r, hcfi, hsp, hip⟩ := cfi_caller
+    (Walk.symbolise (Walk.mkEnvW .amd64 .other (worldOf cfiDump) (winsOf cfiDumpW) cfiMem0)
+      (Walk.Frame.ofCtx (toCtx 9 cfiRegs) .context)) none rfl rfl
+  rw [← mkEnvW_cfi_specW hne .other (worldOf cfiDump) (winsOf cfiDumpW) cfiMem0] at hcfi
+  have hstep := (cfi_frame_epilogue (Walk.mkEnvW .amd64 .other (worldOf cfiDump) (winsOf cfiDumpW) cfiMem0) cfiMem0
+    (Walk.symbolise (Walk.mkEnvW .amd64 .other (worldOf cfiDump) (winsOf cfiDumpW) cfiMem0)
+      (Walk.Frame.ofCtx (toCtx 9 cfiRegs) .context))
+    { ctx := r, trust := .cfi, instruction := r.ip - 1 } none).mpr
+      ⟨r, hcfi, by rw [hip]; decide, .inl (by rw [hsp]; decide), rfl⟩
+  obtain ⟨rest, hwalk⟩ := walk_second _ cfiMem0 (toCtx 9 cfiRegs) _ (by decide) (by decide) hstep.1
+  rw [hwalk] at hw
+  have hlen : 0 + 1 < s.stacks[0].frames.length := by
+    have := congrArg List.length hw
+    simp at this
+    omega
+  obtain ⟨_, e1⟩ := getElem_of_map_eq hw (0 + 1) hlen
+  have e1' : s.stacks[0].frames[0 + 1].f =
+      Walk.symbolise (Walk.mkEnvW .amd64 .other (worldOf cfiDump) (winsOf cfiDumpW) cfiMem0)
+        { ctx := r, trust := .cfi, instruction := r.ip - 1 } := e1.symm
+  have ht : s.stacks[0].frames[0 + 1].f.trust = .cfi := by rw [e1']; rfl
+  refine ⟨hlen, ht, by rw [e1']; exact hsp, by rw [e1']; exact hip, ?_⟩
+  have := state_cfi_frames_follow_c06W cfiDumpW [cfiThread] s hth hs hn (by rw [ea]; exact hne) hregs 0 h1 h2
+    cfiRegs hstart' 0 hlen ht
+  rw [ea, eo, hsel', em, hworld] at this
+  exact this
+end CfiFrameW
+
 end MdModel.Index
